@@ -364,3 +364,16 @@ pub fn encode_control(buf_len: usize, kind: u8, packet_id: u16, reason: u8) -> S
         _ => render_encoded(MqttSerializer::encode_with_offset(&mut buf, &PingReq)),
     }
 }
+
+/// `Property::is_valid_for` for context 0 = publish, 1 = subscribe, 2 = unsubscribe, 3 = disconnect,
+/// 4 = will.
+pub fn valid_for(property: &Property<'_>, context: u8) -> bool {
+    use crate::properties::PropertyContext;
+    property.is_valid_for(match context {
+        0 => PropertyContext::Publish,
+        1 => PropertyContext::Subscribe,
+        2 => PropertyContext::Unsubscribe,
+        3 => PropertyContext::Disconnect,
+        _ => PropertyContext::Will,
+    })
+}
